@@ -614,3 +614,79 @@ package pipeline
 //@   callee Out(e)
 //@     requires recv == old(r.output) && e == event && nout == 0
 //@     set nout := nout + 1
+
+// ---------------------------------------------------------------------------
+// C14: legacy match_fields.  Documented meaning (pipeline/README.md, "Match
+// modes"): a condition holds iff its field exists in the event and, for a regexp
+// condition, the regexp matches the value, otherwise one of the listed values
+// equals the value (or is a prefix of it in the *_prefix modes); `and` = all
+// conditions hold, `or` = some condition holds; match_invert negates.
+//
+// Uninterpreted (deterministic within one call): ex(k) = field of condition k
+// exists, re(k) = its regexp matches, val(k) = valueExists on its value.
+
+//@ func (*MatchCondition).valueExists
+//@   ghost w int = 0
+//@   pure
+//@   setat "if match {" w := rangeindex
+//@   ensures result ==> 0 <= w && w < len(mc.Values) && ((byPrefix && up_hasprefix(s, mc.Values[w])) || (!byPrefix && mc.Values[w] == s))
+//@   ensures !result ==> (forall i :: 0 <= i && i < len(mc.Values) ==> !((byPrefix && up_hasprefix(s, mc.Values[i])) || (!byPrefix && mc.Values[i] == s)))
+//@   loop 1 invariant rangeindex < len(mc.Values) && !match
+//@   loop 1 invariant forall i :: 0 <= i && i <= rangeindex ==> !((byPrefix && up_hasprefix(s, mc.Values[i])) || (!byPrefix && mc.Values[i] == s))
+
+//@ func (*processor).isMatchAnd
+//@   pure
+//@   ghost w int = 0
+//@   setat "node := event.Root.Dig(cond.Field...)" w := rangeindex
+//@   ensures result ==> (forall k :: 0 <= k && k < len(conds) ==> up_ex(k) && ((conds[k].Regexp != nil && up_re(k)) || (conds[k].Regexp == nil && up_val(k))))
+//@   ensures !result ==> 0 <= w && w < len(conds) && !(up_ex(w) && ((conds[w].Regexp != nil && up_re(w)) || (conds[w].Regexp == nil && up_val(w))))
+//@   loop 1 invariant rangeindex < len(conds)
+//@   loop 1 invariant forall k :: 0 <= k && k <= rangeindex ==> up_ex(k) && ((conds[k].Regexp != nil && up_re(k)) || (conds[k].Regexp == nil && up_val(k)))
+//@   callee Dig(path) (n)
+//@     pure
+//@     ensures (n != nil) == up_ex(rangeindex)
+//@   callee AsString() (s)
+//@     pure
+//@   callee MatchString(s) (r)
+//@     pure
+//@     ensures r == up_re(rangeindex)
+//@   callee valueExists(s, bp) (r)
+//@     requires bp == byPrefix
+//@     ensures r == up_val(rangeindex)
+
+//@ func (*processor).isMatchOr
+//@   pure
+//@   ghost w int = 0
+//@   setat "node := event.Root.Dig(cond.Field...)" w := rangeindex
+//@   ensures result ==> 0 <= w && w < len(conds) && up_ex(w) && ((conds[w].Regexp != nil && up_re(w)) || up_val(w))
+//@   ensures !result ==> (forall k :: 0 <= k && k < len(conds) ==> !(up_ex(k) && ((conds[k].Regexp != nil && up_re(k)) || up_val(k))))
+//@   loop 1 invariant rangeindex < len(conds)
+//@   loop 1 invariant forall k :: 0 <= k && k <= rangeindex ==> !(up_ex(k) && ((conds[k].Regexp != nil && up_re(k)) || up_val(k)))
+//@   callee Dig(path) (n)
+//@     pure
+//@     ensures (n != nil) == up_ex(rangeindex)
+//@   callee AsString() (s)
+//@     pure
+//@   callee MatchString(s) (r)
+//@     pure
+//@     ensures r == up_re(rangeindex)
+//@   callee valueExists(s, bp) (r)
+//@     requires bp == byPrefix
+//@     ensures r == up_val(rangeindex)
+
+//@ func (*processor).isMatch
+//@   ghost m bool = false
+//@   requires 0 <= index && index < len(p.actionInfos)
+//@   ensures p.actionInfos[index].DoIfChecker == nil ==> result == (m != p.actionInfos[index].MatchInvert)
+//@   callee isMatchOr(c, e, bp) (r)
+//@     requires (info.MatchMode == MatchModeOr || info.MatchMode == MatchModeOrPrefix) && bp == (info.MatchMode == MatchModeOrPrefix) && c == info.MatchConditions
+//@     pure
+//@     set m := r
+//@   callee isMatchAnd(c, e, bp) (r)
+//@     requires !(info.MatchMode == MatchModeOr || info.MatchMode == MatchModeOrPrefix) && bp == (info.MatchMode == MatchModeAndPrefix) && c == info.MatchConditions
+//@     pure
+//@     set m := r
+//@   callee Check(d)
+//@     pure
+//@   callee NewEventData(r)
+//@     pure
